@@ -611,3 +611,38 @@ Section ProjPerm.
       + exact H.
   Qed.
 End ProjPerm.
+
+(* ---------------------------------------------------------------------- critical sections that commute
+   The generic form of "Crit bodies commute up to an equivalence ~": interpret each logged block c as a
+   state transformer  apply c  on an accumulator; if the transformers respect ~ and commute up to ~, then
+   any two orders of the same blocks end in ~-equal accumulators. *)
+Section CritCommute.
+  Variables A C : Type.
+  Variable eqv : A -> A -> Prop.
+  Variable apply : C -> A -> A.
+  Hypothesis eqv_refl : forall a, eqv a a.
+  Hypothesis eqv_trans : forall a b c, eqv a b -> eqv b c -> eqv a c.
+  Hypothesis apply_proper : forall c a a', eqv a a' -> eqv (apply c a) (apply c a').
+  Hypothesis apply_comm : forall c1 c2 a, eqv (apply c1 (apply c2 a)) (apply c2 (apply c1 a)).
+
+  (* the log is newest first: fold_right applies the oldest block first *)
+  Definition apply_all (l : list C) (a : A) : A := fold_right apply a l.
+
+  Theorem crit_commute_perm : forall l l', Permutation l l' ->
+    forall a, eqv (apply_all l a) (apply_all l' a).
+  Proof.
+    induction 1 as [|c l l' _ IH|c1 c2 l|l l' l'' _ IH1 _ IH2]; intros a; cbn.
+    - apply eqv_refl.
+    - apply apply_proper. apply IH.
+    - apply apply_comm.
+    - eapply eqv_trans; [apply IH1|apply IH2].
+  Qed.
+
+  (* two runs that log the same blocks per iteration end in ~-equal accumulators *)
+  Theorem crit_commute_logs : forall (lg lg' : list (nat * C)),
+    (forall i, proj i lg = proj i lg') ->
+    forall a, eqv (apply_all (map snd lg) a) (apply_all (map snd lg') a).
+  Proof.
+    intros lg lg' H a. apply crit_commute_perm. apply Permutation_map. apply proj_perm. exact H.
+  Qed.
+End CritCommute.
